@@ -26,6 +26,7 @@ import os
 import random
 import shutil
 import subprocess
+import threading
 from concurrent.futures import ThreadPoolExecutor
 
 from .. import common, tlc
@@ -41,6 +42,14 @@ DEV_BREAKS = {"NameNotEscaped": "EscapeSuffices", "MixedPrimitiveNotEscaped": "E
 
 
 # ------------------------------------------------------------------ TLC: traces and oracle
+_SLOTS = threading.BoundedSemaphore(tlc.NCPU)      # TLC processes of this check running at once
+
+
+def _tlc(*a, **kw):
+    with _SLOTS:
+        return tlc.model_check(*a, **kw)
+
+
 def _batches(items, size_of, limit):
     """Split items into at most tlc.NCPU groups of similar total size."""
     n = max(1, min(tlc.NCPU, (sum(size_of(x) for x in items) + limit - 1) // limit))
@@ -66,7 +75,7 @@ def run_traces(module, cfg, traces, size_of, extra_env=None):
             json.dump(groups[k], f)
         env = dict(VT_TRACES=path, VT_MAXLEN="1")
         env.update(extra_env or {})
-        return tlc.model_check(module, cfg=cfg, env=env, workers=1, timeout=3000, heap="3g")
+        return _tlc(module, cfg=cfg, env=env, workers=1, timeout=3000, heap="3g")
     try:
         with ThreadPoolExecutor(max_workers=len(groups)) as ex:
             rs = list(ex.map(one, range(len(groups))))
@@ -283,7 +292,7 @@ def run(rep):
             ("MC_Puml", "MC_Puml.cfg", dict(VT_MAXLEN="4" if quick else "5", VT_TRACES=""), INV_PUML)]
 
     def mc(job):
-        return tlc.model_check(job[0], cfg=job[1], env=job[2], workers=max(1, tlc.NCPU // len(jobs)), timeout=3000)
+        return _tlc(job[0], cfg=job[1], env=job[2], workers=max(1, tlc.NCPU // len(jobs)), timeout=3000)
     with ThreadPoolExecutor(max_workers=len(jobs)) as ex:
         for job, r in zip(jobs, ex.map(mc, jobs)):
             tlc.require_ok(r, job[1])
@@ -298,8 +307,17 @@ def run(rep):
         strs = sorted(set(drv.FIXED + [drv.rand_string(rng) for _ in range(60 if quick else 400)]))
         cases = [(f"e{k}", "escaped", dot_escape(s)) for k, s in enumerate(strs)] + \
                 [(f"r{k}", "repr", dot_repr(s)) for k, s in enumerate(strs)]
-        got, st = predict(cases, "")
+        # ---------------- corpus, exports; the three TLC batches are independent and run side by side
+        corpus = Corpus(root, rng, int(os.environ.get("VT_C29_MODELS", 14 if quick else 70)))   # env: development aid
+        dots, pumls = export_all(corpus, rng, quick)
+        with ThreadPoolExecutor(max_workers=3) as ex:
+            f1 = ex.submit(predict, cases, "")
+            f2 = ex.submit(dot_traces, {i: d["text"] for i, d in dots.items()})
+            f3 = ex.submit(puml_traces, {i: d["text"] for i, d in pumls.items()})
+            (got, st), (dres, m2), (pres, m3) = f1.result(), f2.result(), f3.result()
         rep.add_oracle("MC_Dot_Oracle[escaped,repr]", st)
+        rep.add_mc("TraceDot", m2, ["DotLex!Step consumes the text; Accepting at the end"])
+        rep.add_mc("MC_Puml_Trace", m3, ["Puml!PStep consumes the lines; PAccepting at the end"])
         for (i, kind, e), s in zip(cases, strs + strs):
             fn = "dot_escape" if kind == "escaped" else "dot_repr"
             case = dict(call=f"{fn}({s!r})", result=e)
@@ -308,13 +326,6 @@ def run(rep):
             else:
                 rep.violation(case, f"{fn}({s!r}) = {e!r}: a node label containing it is not accepted by DotLex "
                                     f"(record label / quoting broken)")
-        # ---------------- corpus, exports
-        corpus = Corpus(root, rng, int(os.environ.get("VT_C29_MODELS", 14 if quick else 70)))   # env: development aid
-        dots, pumls = export_all(corpus, rng, quick)
-        dres, m = dot_traces({i: d["text"] for i, d in dots.items()})
-        rep.add_mc("TraceDot", m, ["DotLex!Step consumes the text; Accepting at the end"])
-        pres, m = puml_traces({i: d["text"] for i, d in pumls.items()})
-        rep.add_mc("MC_Puml_Trace", m, ["Puml!PStep consumes the lines; PAccepting at the end"])
         # ---------------- calibration
         if dot_available():
             dv = dot_verdicts({i: d["path"] for i, d in dots.items()})
@@ -386,17 +397,17 @@ def explain_failing(rep, root, dots, dres, failing, devs):
     if not failing:
         return
     fields = {i: drv.model_fields(dots[i]["model"]["model"]) for i in failing}
+    cases = []
+    for i in failing:
+        names, mixed = fields[i]
+        cases += [(f"{i}|n{k}", "name", v) for k, (_, v) in enumerate(names)]
+        cases += [(f"{i}|x{k}", "mixed", v) for k, (_, _, _, v) in enumerate(mixed)]
     pred = {}
-    for fid, dev in devs.items():
-        cases = []
-        for i in failing:
-            names, mixed = fields[i]
-            cases += [(f"{i}|n{k}", "name", v) for k, (_, v) in enumerate(names)]
-            cases += [(f"{i}|x{k}", "mixed", v) for k, (_, _, _, v) in enumerate(mixed)]
-        got, st = predict(cases, dev)
-        if st:
-            rep.add_oracle(f"MC_Dot_Oracle[Dev={dev}]", st)
-        pred[fid] = got
+    with ThreadPoolExecutor(max_workers=max(1, len(devs))) as ex:
+        for (fid, dev), (got, st) in zip(devs.items(), ex.map(lambda d: predict(cases, d), devs.values())):
+            if st:
+                rep.add_oracle(f"MC_Dot_Oracle[Dev={dev}]", st)
+            pred[fid] = got
     # candidate explanations per failing output: each single finding, then all together
     variants = {}
     for i in failing:
